@@ -36,9 +36,12 @@ fixed += [
     mg.default_cfg("jpsi_ksp_can", align="dpd2", stable=[3], dyn="bwff", scalar_m0=True),
     mg.default_cfg("jpsi_ksp_can", align="dpd3", stable=[1], dyn="bwff"),
     mg.default_cfg("jpsi_gpipi_can", dyn="bwff", stable=[1], dyn_names=["J/psi(1S)", "f(0)(980)"]),
+    # axis-angle alignment with a MASSLESS final state below an isobar (its Wigner angles must be defined too)
+    mg.default_cfg("chic0_omegaomega_hel", align="aa"),
+    mg.default_cfg("psi2s_ggjpsi_hel", align="aa", keep=[0, 1]),
 ]
 small_for_aa = {"jpsi_gpipi_hel", "jpsi_gpipi_can", "etac_ll_hel", "etac_ll_can", "jpsi_ppbar_hel",
-                "jpsi_pipi_2body_hel", "d0_kkk_hel", "psi2s_jpsipipi_hel", "jpsi_ksp_hel", "lc_pkpi_hel"}
+                "jpsi_pipi_2body_hel", "d0_kkk_hel", "psi2s_jpsipipi_hel", "jpsi_ksp_hel", "lc_pkpi_hel", "chic0_omegaomega_hel"}
 cfgs = list(fixed)
 while len(cfgs) < len(fixed) + n_random:
     n = rng.choice(names)
